@@ -116,6 +116,7 @@ static std::string arith_forms(const std::string& form, uintptr_t addr, N n)
   const void* ret = nullptr;
   if (form == "add") ret = (p + n).UNSAFE_unverified();
   else if (form == "sub") ret = (p - n).UNSAFE_unverified();
+  else if (form == "radd") ret = (n + p).UNSAFE_unverified();      // number first
   else if (form == "addeq") ret = (p += n).UNSAFE_unverified();
   else if (form == "subeq") ret = (p -= n).UNSAFE_unverified();
   else if (form == "index") {
@@ -168,6 +169,7 @@ static std::string op_arith(const toks_t& t)
           auto p = mkptr<T>(addr);
           const void* ret = nullptr;
           if (t[2] == "add") ret = (p + *cell).UNSAFE_unverified();
+          else if (t[2] == "radd") ret = (*cell + p).UNSAFE_unverified();
           else if (t[2] == "sub") ret = (p - *cell).UNSAFE_unverified();
           else if constexpr (std::is_class_v<T>) ret = (&(p[*cell].a)).UNSAFE_unverified();
           else ret = (&p[*cell]).UNSAFE_unverified();
@@ -544,6 +546,7 @@ static std::string op_chain(const toks_t& t)
           if constexpr (std::is_class_v<T>) q = rlbox::sandbox_reinterpret_cast<T*>(&(q[n].a));
           else q = rlbox::sandbox_reinterpret_cast<T*>(&q[n]);
         } else if (sub) q = q - n;
+        else if (o[1] == "2") q = n + q;      // number first
         else q = q + n;
         p = rlbox::sandbox_reinterpret_cast<char*>(q);
       });
